@@ -384,3 +384,60 @@ FAMILIES = [
     Family('scipy_ops', gen_scipy, impl_scipy, None, '', None, oracle_scipy, descr=descr_scipy,
            theorem='C12_matrix_quat_roundtrip, C12_from_rotvec, C12_rotvec_roundtrip_partial; as_euler / mean / align_vectors: correspondence only'),
 ]
+
+
+# ---- added after seeded change C12-3: mean over several batch dimensions (any order, negative indices) with weights ----
+def _gen_mean_dims(rng, tier):
+    out = []
+    dims_pool = [(0,), (1,), (-1,), (0, 1), (1, 0), (-1, 0), (0, -1), (-2, -1), (2, 0), (0, 2), (1, 2), (2, 1), None]
+    for i in range(16 if tier == 'quick' else 240):
+        shape = [rng.randint(2, 3) for _ in range(3)]
+        d = dims_pool[i % len(dims_pool)]
+        out.append({'shape': shape, 'dim': None if d is None else list(d), 'seed': rng.randrange(10 ** 6), 'weighted': i % 3 != 2, 'keepdim': rng.random() < 0.3})
+    return out
+
+
+def _impl_mean_dims(c):
+    import itertools
+    import numpy as np
+    import torch
+    from scipy.spatial.transform import Rotation as SR
+    from mrpro.data import Rotation
+    g = np.random.default_rng(c['seed'])
+    shape = c['shape']
+    # rotations clustered around a common one (the mean is well defined), weights far from uniform
+    base = SR.from_rotvec([0.3, -0.2, 0.5])
+    q = (SR.from_rotvec(g.normal(0, 0.35, (int(np.prod(shape)), 3))) * base).as_quat().reshape(*shape, 4)
+    w = g.choice([0.25, 0.5, 1.0, 4.0, 8.0], size=shape) if c['weighted'] else None
+    r = Rotation(torch.from_numpy(q))
+    dim = None if c['dim'] is None else tuple(c['dim'])
+    m = r.mean(weights=None if w is None else torch.from_numpy(w), dim=dim, keepdim=c['keepdim'])
+    got = m.as_matrix().numpy()
+    nd = len(shape)
+    red = tuple(range(nd)) if dim is None else tuple(d % nd for d in dim)
+    keep = [a for a in range(nd) if a not in red]
+    ref = np.zeros([shape[a] for a in keep] + [3, 3])
+    for idx in itertools.product(*[range(shape[a]) for a in keep]):
+        sl = [slice(None)] * nd
+        for a, i in zip(keep, idx):
+            sl[a] = i
+        qs = q[tuple(sl)].reshape(-1, 4)
+        ws = None if w is None else w[tuple(sl)].reshape(-1)
+        ref[idx] = SR.from_quat(qs).mean(weights=ws).as_matrix()
+    got = got.reshape(ref.shape) if got.size == ref.size else got
+    return {'dev': float(np.abs(got - ref).max()) if got.shape == ref.shape else -1.0, 'shape': list(m.shape), 'single': m.single}
+
+
+def _oracle_mean_dims(c, o):
+    if isinstance(o, dict) and 'raises' in o:
+        return f'Rotation.mean(dim={c["dim"]}) raised {o}'
+    if o['dev'] < 0:
+        return f'Rotation.mean(dim={c["dim"]}, keepdim={c["keepdim"]}) has batch shape {o["shape"]}'
+    if o['dev'] > 1e-6:
+        return (f'Rotation.mean(weights, dim={c["dim"]}) differs from scipy\'s mean of each slice by {o["dev"]:.3g} '
+                f'(shape {c["shape"]}, weighted={c["weighted"]})')
+    return None
+
+
+FAMILIES.append(Family('mean_over_dims', _gen_mean_dims, _impl_mean_dims, None, '', None, _oracle_mean_dims,
+                       theorem='(scipy correspondence only: mean is not proved)'))
